@@ -251,8 +251,7 @@ func (d *Decoder) readObjectDef() (interface{}, error) {
 
 	tag, err := d.readTag()
 	if err != nil {
-		hlog.Debugf("reading tag err:%v", err)
-		return nil, nil //ignore
+		return nil, err
 	}
 
 	if objectLenTag(tag) {
